@@ -178,6 +178,14 @@ def run(ctx, rep):
     gs = guards_of(fp, ut[0]) if ut else []
     rep.check(bool(ut) and ('fix', True) in gs, 'R-C05-3', 'file_post: modification time restored only when fixing', fp.file, '', function='file_post', construct='utime guard')
 
+    hash_provenance_rules(P, rep, 'R-C05-5', st)
+    rep.notes.append('R-C05-6 (hash-length agreement, F4) is not armed: suspected, not replayed')
+
+
+def hash_provenance_rules(P, rep, rid, st):
+    """hash-provenance typestate (shared by C05 and C06): CHG/DELETED carry the hash of what the parity holds, REP/BLK of the current data"""
+    if rid not in rep.rules:
+        rep.rule(rid, 'hash provenance: a freshly computed data hash is stored in a block only together with the commit to REP/BLK; REP -> DELETED always invalidates; new CHG blocks get ZERO or the DELETED predecessor\'s hash', 5)
     # ---- R-C05-5 hash provenance
     # (a) every store of a freshly computed hash into block->hash
     for fname in ('state_sync_process', 'state_hash_process'):
@@ -197,7 +205,7 @@ def run(ctx, rep):
             targets = [h.blocks[top][0]] if top is not None else []
             r_ = h.reach([m], stop={x.id for x in commits})
             esc = [t for t in targets if t.id in r_] + [r for r in h.returns() if r.id in r_]
-            rep.check(not esc, 'R-C05-5', '%s: hash of freshly read data stored into %s' % (fname, dst[1:]), m.loc(),
+            rep.check(not esc, rid, '%s: hash of freshly read data stored into %s' % (fname, dst[1:]), m.loc(),
                       'followed by the commit to REP/BLK on every path' if not esc else 'the block can keep its CHG state (stripe skipped for an error elsewhere) while its hash already describes the NEW data, not what the parity holds',
                       function=fname, construct='fresh hash stored before commit')
     # (b) REP -> DELETED invalidates
@@ -210,12 +218,12 @@ def run(ctx, rep):
     if ok:
         repb = [cb for cv, cb in sw[0].cases if cv == st['REP']]
         ok = len(repb) == 1 and d.must_pass(dele[0], inval, start=d.blocks[repb[0]][0])
-    rep.check(ok, 'R-C05-5', 'scan_file_deallocate: a REP block is always invalidated before becoming DELETED', d.file, '', function='scan_file_deallocate', construct='REP to DELETED')
+    rep.check(ok, rid, 'scan_file_deallocate: a REP block is always invalidated before becoming DELETED', d.file, '', function='scan_file_deallocate', construct='REP to DELETED')
     ok = False
     if len(sw) == 1:
         blkb = [cb for cv, cb in sw[0].cases if cv == st['BLK']]
         ok = len(blkb) == 1 and not any(x.id in d.reach([d.blocks[blkb[0]][0]], stop={dele[0].id}, include_start=True) for x in inval)
-    rep.check(ok, 'R-C05-5', 'scan_file_deallocate: a BLK block keeps its hash (it is what the parity holds)', d.file, '', function='scan_file_deallocate', construct='BLK to DELETED')
+    rep.check(ok, rid, 'scan_file_deallocate: a BLK block keeps its hash (it is what the parity holds)', d.file, '', function='scan_file_deallocate', construct='BLK to DELETED')
     # (c) new CHG blocks
     a = P.fn('scan_file_allocate')
     rep.analysed(a)
@@ -229,5 +237,4 @@ def run(ctx, rep):
         # copy only from a DELETED predecessor, and invalidated when clear_past_hash is not set
         inv = [x for x in a.calls('hash_invalid_set') if a.dominates(cp[0], x)] if cp else []
         ok = ok and bool(inv)
-    rep.check(ok, 'R-C05-5', 'scan_file_allocate: a new CHG block gets the ZERO hash or the hash of the DELETED block it overwrites', a.file, '', function='scan_file_allocate', construct='new CHG hash')
-    rep.notes.append('R-C05-6 (hash-length agreement, F4) is not armed: suspected, not replayed')
+    rep.check(ok, rid, 'scan_file_allocate: a new CHG block gets the ZERO hash or the hash of the DELETED block it overwrites', a.file, '', function='scan_file_allocate', construct='new CHG hash')
